@@ -13,6 +13,7 @@ import XzVerif.Model.FileInfo
 import XzVerif.Gen.C13
 import XzVerif.Lemmas.IndexHist
 import XzVerif.Lemmas.IndexLocate
+import XzVerif.Lemmas.IndexCodec
 
 namespace XzVerif.C13
 open XzVerif.Index
@@ -202,42 +203,61 @@ theorem locate_unique (i : Index) (t : Nat) :
   have hc := Spec.locatePos_contains hp
   exact ⟨p, hp, hc, fun si bi h' => Spec.contains_unique h' hc⟩
 
-/-! ### iter_visits_once / index_codec_roundtrip (statements; see the partial theorems) -/
+/-! ### iter_visits_once (statement + partial) and index_codec_roundtrip -/
 
-/-- full strength: iterating the specification iterator from a rewound state returns exactly `Spec.iterAll` -/
+/-- full strength: in every mode (a) calling `next` on the specification iterator until it fails shows exactly the
+    listing `Spec.iterAll` (every Stream / Block / non-empty Block once, in file order, offsets = prefix sums), and
+    (b) the concrete iterator shows the same, also when the index is the destination of a `cat` between two calls -/
 def iter_visits_once_statement : Prop :=
-  ∀ (i : Index) (mode : Nat), Spec.Valid i →
-    (Spec.iterAll i mode).length =
-      (if mode = 0 then (Spec.positions i true).length else if mode = 1 then i.length
-       else if mode = 2 then Spec.blockCount i else if mode = 3 then ((Spec.allBlocks i).filter (·.uncompressed ≠ 0)).length else 0)
+  ∀ (h : Hist) (i : Impl.Index), h.impl = some i → ∀ mode : Nat,
+    ((Spec.iterSeq h.spec mode (Spec.iterFuel h.spec) none).filterMap fun p => Spec.infoAt h.spec p.1 p.2) = Spec.iterAll h.spec mode
+    ∧ Impl.iterAll i mode = Spec.iterAll h.spec mode
 
-/-- partial: BLOCK mode visits every Block once, in order, with offsets = prefix sums (stated through the encoder's
-    view of the iteration), on a concrete multi-Stream index with empty Streams and empty Blocks, all five mode values -/
+/-- partial (kernel evaluation on a concrete multi-Stream index with empty Streams and empty Blocks, all mode values):
+    the persistent iterator returns the listing; BLOCK mode visits every Block once in order with consecutive numbers;
+    NONEMPTY_BLOCK skips the empty ones; STREAM visits every Stream. Missing: the general induction (the model driver
+    checks both equalities at run time on every iter/inext op of the correspondence). -/
 theorem iter_visits_once_partial :
     let i : Index := [⟨none, 0, [⟨5, 0⟩, ⟨6, 3⟩]⟩, ⟨none, 4, []⟩, ⟨some ⟨0, 8, 4⟩, 0, [⟨7, 0⟩, ⟨9, 9⟩, ⟨5, 0⟩]⟩, ⟨none, 0, []⟩]
-    (Spec.iterAll i 2).filterMap (fun x => x.block.map fun b => (⟨b.unpaddedSize, b.uncompressedSize⟩ : Block)) = Spec.allBlocks i
+    (∀ mode ∈ [0, 1, 2, 3, 4, 5],
+      ((Spec.iterSeq i mode (Spec.iterFuel i) none).filterMap fun p => Spec.infoAt i p.1 p.2) = Spec.iterAll i mode)
+    ∧ (Spec.iterAll i 2).filterMap (fun x => x.block.map fun b => (⟨b.unpaddedSize, b.uncompressedSize⟩ : Block)) = Spec.allBlocks i
     ∧ (Spec.iterAll i 2).filterMap (fun x => x.block.map (·.numberInFile)) = [1, 2, 3, 4, 5]
     ∧ (Spec.iterAll i 3).filterMap (fun x => x.block.map (·.uncompressedFileOffset)) = [0, 3]
     ∧ (Spec.iterAll i 1).map (·.stream.number) = [1, 2, 3, 4]
     ∧ (Spec.iterAll i 0).length = 7 ∧ Spec.iterAll i 4 = [] := by decide +kernel
 
-/-- full strength: decoding the encoded Index of a valid single-Stream index gives that index back (flags and
-    padding are not part of the Index field), consumes `lzma_index_size` bytes -/
-def index_codec_roundtrip_statement : Prop :=
-  ∀ (bs : List Block), Spec.Valid [⟨none, 0, bs⟩] → memusage 1 bs.length ≤ U64 - 1 →
-    (Spec.decode (U64 - 1) (encodeBlocks bs)).ret = .streamEnd
+/-- partial: an iterator survives a `cat` performed between two `next` calls (the last group of the destination is
+    reallocated by the C code; the ITER_METHOD_* indirection of the model's iterator is what this exercises) -/
+theorem iter_survives_cat_partial :
+    let d := (Impl.append (Impl.append Impl.init 10 5).2 12 6).2
+    let s := (Impl.append Impl.init 9 7).2
+    let c := (Impl.cat d s).2
+    ∃ it1 it2 it3 x1 x2 x3,
+      Impl.iterNext d Impl.Iter.rewind 2 = some (it1, x1) ∧ Impl.iterNext d it1 2 = some (it2, x2)
+      ∧ Impl.iterNext c it2 2 = some (it3, x3) ∧ Impl.iterNext c it3 2 = none
+      ∧ [x1, x2, x3] = Spec.iterAll (Impl.abs c) 2 := by
+  refine ⟨_, _, _, _, _, _, rfl, rfl, rfl, ?_, ?_⟩ <;> decide +kernel
+
+/-- Decoding the encoded Index field of a valid single-Stream index gives that index back (Stream Flags and Stream
+    Padding are not part of the Index field), for every list of Blocks within the format limits: the decoder answers
+    LZMA_STREAM_END, consumes exactly `lzma_index_size` bytes (= the encoder's output length, padding and CRC32
+    included) and every `lzma_index_append` on the way succeeds. -/
+theorem index_codec_roundtrip (bs : List Block) (hv : Spec.Valid [⟨none, 0, bs⟩])
+    (hb : indexSize bs.length (listSize bs) ≤ BACKWARD_SIZE_MAX) :
+    Spec.encode [⟨none, 0, bs⟩] = encodeBlocks bs
+    ∧ (Spec.decode (U64 - 1) (encodeBlocks bs)).ret = .streamEnd
     ∧ (Spec.decode (U64 - 1) (encodeBlocks bs)).index = some [⟨none, 0, bs⟩]
     ∧ (Spec.decode (U64 - 1) (encodeBlocks bs)).used = indexSize bs.length (listSize bs)
+    ∧ (encodeBlocks bs).length = indexSize bs.length (listSize bs) :=
+  ⟨by simp [Spec.encode, Spec.allBlocks], decode_encode (blocksOk_of_valid hv hb)⟩
 
-/-- partial: the VLI layer of the codec is proved for all values (`vli_roundtrip`, `vli_size_spec`); the Record loop,
-    padding and CRC32 are checked here on concrete Block lists covering every VLI length boundary. -/
-theorem index_codec_roundtrip_partial :
+/-- concrete instances covering every VLI length boundary (also shows the hypotheses are satisfiable) -/
+example :
     ∀ bs ∈ ([[], [⟨5, 0⟩], [⟨127, 128⟩, ⟨16383, 16384⟩, ⟨2097152, 268435455⟩],
              [⟨34359738368, 4398046511103⟩, ⟨562949953421312, 72057594037927935⟩, ⟨5, 72057594037927936⟩]] : List (List Block)),
       (Spec.decode (U64 - 1) (encodeBlocks bs)).ret = .streamEnd
-      ∧ (Spec.decode (U64 - 1) (encodeBlocks bs)).index = some [⟨none, 0, bs⟩]
-      ∧ (Spec.decode (U64 - 1) (encodeBlocks bs)).used = indexSize bs.length (listSize bs)
-      ∧ (encodeBlocks bs).length = indexSize bs.length (listSize bs) := by decide +kernel
+      ∧ (Spec.decode (U64 - 1) (encodeBlocks bs)).index = some [⟨none, 0, bs⟩] := by decide +kernel
 
 /-! ### non-vacuity -/
 
